@@ -27,7 +27,7 @@ def main():
     replay = json.load(open(a.replay)) if a.replay else None
     try:
         if not a.no_build:
-            common.build_property(ctx, getattr(mod, "REGENERATE", None))
+            common.build_property(ctx, getattr(mod, "REGENERATE", None), getattr(mod, "EXTRA_TARGETS", ()))
         mod.run(ctx, replay)
     except Exception as e:  # a crash of the machinery is never a pass
         traceback.print_exc()
